@@ -543,12 +543,72 @@ Definition blank_idx (v : version) (r : nrec) : bool :=
   negb (skipped r) &&
   match nth_error (r_nums r) (if is_v3 v then 1 else 2) with Some None => true | _ => false end.
 
+(* ------------------------------------------------------------------------------ the system of a RINEX 2 file: its name *)
+(* pathlib: PurePath.suffixes / .stem on the file name *)
+Fixpoint split_dot (s : string) : list string :=
+  match s with
+  | EmptyString => [EmptyString]
+  | String c r =>
+      match split_dot r with
+      | h :: t => if (c =? ".")%char then EmptyString :: h :: t else String c h :: t
+      | [] => [String c EmptyString]
+      end
+  end.
+Definition is_dot (c : ascii) : bool := (c =? ".")%char.
+Definition suffixes (name : string) : list string :=
+  match last_char name with
+  | Some c => if is_dot c then [] else map (fun x => "." ++ x) (tl (split_dot (lstrip_by is_dot name)))
+  | None => []
+  end.
+Definition py_stem (name : string) : string :=
+  match rev (split_dot name) with
+  | last :: (x :: r) =>
+      let st := join "." (rev (x :: r)) in
+      if String.eqb last "" || String.eqb st "" then name else st
+  | _ => name
+  end.
+Definition lower (c : ascii) : ascii :=
+  let n := nat_of_ascii c in if ((65 <=? n) && (n <=? 90))%nat then ascii_of_nat (n + 32) else c.
+Definition upper (c : ascii) : ascii :=
+  let n := nat_of_ascii c in if ((97 <=? n) && (n <=? 122))%nat then ascii_of_nat (n - 32) else c.
+Fixpoint contains (sub s : string) : bool :=
+  startswith sub s || match s with String _ r => contains sub r | EmptyString => false end.
+Definition char_from_end (k : nat) (s : string) : option ascii :=     (* s[-k] *)
+  if (len s <? k)%nat then None else first_char (drop (len s - k) s).
+
+(* Rinex2NavParser / Rinex212NavParser._get_system_from_file_extension; ext = SYSTEM_FILE_EXTENSION (regenerated).
+   None = the call raises (IndexError / log.fatal) *)
+Definition sys_of_name (v : version) (ext : list (string * string)) (name : string) : option string :=
+  match v with
+  | V3 => Some ""
+  | V2 =>
+      match suffixes name with
+      | s0 :: _ => match last_char s0 with Some c => alookup (String (lower c) EmptyString) ext | None => None end
+      | [] => None
+      end
+  | V212 =>
+      match suffixes name with
+      | s0 :: _ as sf =>
+          let fname := if mem ".gz" sf then py_stem name else name in
+          if contains ".rnx" s0 then
+            match char_from_end 6 fname with Some c => Some (String (upper c) EmptyString) | None => None end
+          else match last_char s0 with Some c => alookup (String (lower c) EmptyString) ext | None => None end
+      | [] => None
+      end
+  end.
+
+(* the naming conventions: ssssdddf.yyt[.gz] (t = n GPS, g GLONASS, l Galileo) and, for 2.12 also, the long names
+   ..._<S>N.rnx[.gz] with the system letter S *)
+Definition spec_ext : list (string * string) := [("n", "G"); ("g", "R"); ("l", "E")].
+
 Inductive observed := ObsCols (o : obs) | ObsError (e : string).
 
 Record case := mkCase {
   k_ver : version;
   k_hdr : string;          (* satellite system of the header line (v3) *)
   k_sys2 : string;         (* system from the file extension (v2) *)
+  k_name : string;         (* file name *)
+  k_ext : list (string * string);   (* regenerated SYSTEM_FILE_EXTENSION of the parser (v2) *)
   k_table : table;         (* the regenerated table of the parser under test *)
   k_lines : list string;   (* body of the file as written by the independent writer *)
   k_recs : list nrec;      (* the generating model *)
@@ -566,15 +626,20 @@ Record case := mkCase {
      7  IndexError where the model with q_blank_idx predicts it (blank clock drift / drift rate)
      8  equals the model with q_ms (+ possibly cross-over quirks)
      9  output is the specification's, but the model run on the regenerated table does not reproduce it
-    10  columns of unequal length *)
+    10  columns of unequal length
+    12  (v2) the system the model derives from the file name with the regenerated extension table is not the file's system
+    13  TypeError where the model with the v2 BeiDou quirk predicts it (rinex2/rinex212 file of system C) *)
 Definition check_file (k : case) : Z :=
   let v := k_ver k in
   if negb (str_list_eqb (map rstrip (k_lines k)) (map rstrip (render_body v (k_recs k)))) then 6%Z else
+  if negb (is_v3 v) && negb (match sys_of_name v (k_ext k) (k_name k) with Some s => String.eqb s (k_sys2 k) | None => false end)
+  then 12%Z else
   let ps := map (prec_of v (k_sys2 k)) (filter (fun r => negb (skipped r)) (k_recs k)) in
   match k_obs k with
   | ObsError e =>
       if String.eqb e "ValueError" && existsb (fun r => negb (skipped r) && has_lower_d r) (k_recs k) then 5%Z
       else if String.eqb e "IndexError" && existsb (blank_idx v) (k_recs k) then 7%Z
+      else if String.eqb e "TypeError" && negb (is_v3 v) && String.eqb (k_sys2 k) "C" then 13%Z
       else 1%Z
   | ObsCols o =>
       if negb (lens_equal o) then 10%Z else
